@@ -75,14 +75,11 @@ Section TableFacts.
     fold v in H. intros E. rewrite E in H. discriminate H.
   Qed.
 
-  Lemma fact_prekex : ph <= 2 -> v = VH -> calls_for sv ph t = true \/ (sk = false /\ ph = 2 /\ t = 20).
+  Lemma fact_prekex : ph <= 2 -> v = VH -> calls_for sv ph t = true.
   Proof.
     intros Hp Hv. pose proof (table_all_spec _ _ tab_prekex sv ph sk va t Hph Hva Ht) as H. unfold p_prekex in H.
     fold v in H. rewrite Hv in H. simpl verdict_eqb in H. rewrite andb_true_r in H.
-    assert (E : (ph <=? 2) = true) by (apply Z.leb_le; exact Hp). rewrite E in H.
-    apply orb_true_iff in H. destruct H as [H|H]; [left; exact H|right].
-    apply andb_true_iff in H as [H H3]. apply andb_true_iff in H as [H1 H2].
-    apply negb_true_iff in H1. apply Z.eqb_eq in H2, H3. auto.
+    assert (E : (ph <=? 2) = true) by (apply Z.leb_le; exact Hp). rewrite E in H. exact H.
   Qed.
 
   Lemma fact_preauth : ph <= 4 -> v = VH -> t <= 79.
